@@ -55,6 +55,28 @@ CHECKS = {
             "PMSA/VMSA, extensions), every position of the later instance's construction, 16 program pairs: each "
             "instance's trace (outcome + digest of the full snapshot after each step) must equal its solo trace.",
             "Differential: no model. Traces use emulate_cycle() only; programs come from a fixed menu.", "3 C20"),
+    "C18": ("brute force over 2^16 + lazily-resolved instruction-word cube exploration of the two 2^32 spaces with "
+            "concrete stepping of every leaf + program pairs; invariant oracle",
+            "All 2^16 Thumb halfwords are fetched and stepped in 48 contexts (IT position x mode x memory system x "
+            "register file). The ARM and Thumb-32 spaces are partitioned completely by running the real decoder and "
+            "from_bitarray on a lazily resolved word (a leaf = a cube of words that all take the same path; the leaves "
+            "tile the space, checked); every leaf, UNPREDICTABLE ones included, is concretised with 4 bit patterns and "
+            "each concrete word is placed in RAM and stepped in two contexts. Plus two-instruction programs over the "
+            "harvested alphabet and the alphabet under 5 other configurations. Any escaping exception other than "
+            "NotImplementedError from a documented hook is a violation keyed by type@site.",
+            "Invariant only. Within a leaf only pattern members are stepped; observations of more than 10 (thorough: 14) "
+            "unresolved bits at once are resolved from a fixed pattern alphabet (reported as words_outside_cap).",
+            "3 C18, 2.2"),
+    "C19": ("the C18 enumeration restricted to User mode (2^16 brute force, lazy-word cubes, program pairs) with a "
+            "confinement invariant over the full tagged privileged state",
+            "Every other mode's banked registers, all SPSRs and ELR_hyp carry distinct tags; after each User-mode step "
+            "the check requires: still User with A/I/F/M, all tags, every system register and the privileged-only "
+            "memory window unchanged - or an architectural exception (svc/und/abt/hyp) at that exception's vector "
+            "with SPSR.M=User and nothing privileged changed but that exception's bookkeeping. All 2^16 Thumb words x "
+            "3 IT contexts x MPU on/off x secure/non-secure x 2 register files; all decode leaves of both 32-bit "
+            "spaces; two-instruction programs; and all 24 unprivileged load/store encodings in 7 privileged modes "
+            "against 4 region permissions.",
+            "Invariant only; same leaf/pattern bounds as C18.", "3 C19"),
 }
 NOT_YET = "check not built yet in this round (see DESIGN.md section 3 for the planned bounded-exhaustive formulation)"
 
